@@ -263,7 +263,7 @@ def main(chk):
                 '(sorted, inside the window, fold = generated phase, KS against the profile, share of the last partial period); a periodic source simulated on gapped GTIs at two '
                 'different start times and processed by one xpphase call. non-trivial = ν̇ ≠ 0 with epoch ≠ start, non-integer number of periods')
     chk.assumptions = TRUSTED
-    chk.lean(['IxpeVerif.Props.C17', 'IxpeVerif.Props.Audit.C17'], GEN)
+    chk.lean(['IxpeVerif.Props.C17', 'IxpeVerif.Props.Audit.C17'], GEN + ['ephemeris_dt', 'ephemeris_nu', 'ephemeris_nudot', 'ephemeris_met_to_phase', 'ephemeris_fold'])
     corr_gen.run(chk, GEN, n=200 if chk.tier == 'quick' else 3000, tag='C17', rtol=1e-10, atol=1e-12)
     explore(chk)
     return chk.finish(level='proof', trusted=TRUSTED, search=lambda k: explore(chk, 3))
